@@ -39,6 +39,10 @@ class OracleDisagreement(Exception):
     pass
 
 
+class PartnerCorrupted(Exception):
+    """The other caller of an interleaved pair got a string that does not match *its* pattern."""
+
+
 def _on_alarm(signum, frame):
     raise _TimedOut()
 
@@ -83,6 +87,8 @@ class Prop(BaseProp):
                      p_unsup=r.choice((0.0, 0.0, 0.25, 1.0)), p_neg=r.choice((0.0, 0.25, 0.6)),
                      size=r.choice((1, 2, 3, 5)))
         gcfg.p_exhaust = r.choice((0.0, 0.0, 0.5))
+        gcfg.p_empty = 0.004
+        pattern_as = r.choice(("plain", "plain", "plain", "plain", "strsub", "enum"))
         for _ in range(10):
             ast = G.gen_pattern(gcfg)
             pat = G.render(ast)
@@ -99,15 +105,32 @@ class Prop(BaseProp):
                 self.probes["unsupported_pattern_regenerated_simpler"] += 1
                 continue
             return {"ast": ast, "pattern": pat, "letters": letters, "max_repeat": max_repeat,
-                    "digits": digits, "word": word,
+                    "digits": digits, "word": word, "pattern_as": pattern_as,
                     "route": route, "seed": derive(*labels, "sched"),
                     "m": cfg["m_seeded"], "flip_n": cfg["flip_n"]}
         return None
 
     # ------------------------------------------------------------ one execution
+    @staticmethod
+    def _wrap(pat, how):
+        """The pattern as the caller's object: a plain str, or an instance of a str subclass whose str()
+        is not its content (the `class Patterns(str, Enum)` idiom) -- d42 accepts any str instance."""
+        if how == "strsub":
+            class Pattern(str):
+                def __str__(self):
+                    return "Pattern(...)"
+            return Pattern(pat)
+        if how == "enum":
+            import enum
+            try:
+                return enum.Enum("Patterns", {"MEMBER": pat}, type=str).MEMBER
+            except Exception:
+                return pat
+        return pat
+
     def _generate(self, case):
         d = self.d
-        pat = case["pattern"]
+        pat = self._wrap(case["pattern"], case.get("pattern_as"))
         route = case["route"]
         if route == "fake":
             return d["fake"](d["schema"].str.regex(pat))
@@ -123,6 +146,42 @@ class Prop(BaseProp):
         gen = d["Generator"](rnd, rg)
         return d["schema"].str.regex(pat).__accept__(gen)
 
+    PARTNER = "<<[xy]{4}-\\d{3}(?:ab|cd)*>>"
+
+    def _generate_pair(self, case):
+        """Two logical callers share one d42 generator (the module-level one behind fake(), or one
+        RegexGenerator / Generator instance): caller 0 generates the case's pattern, caller 1 a fixed
+        partner pattern, interleaved at draw granularity by sim.interleave (one switch seed = one
+        interleaving).  Returns caller 0's string; the partner's is checked here."""
+        from .interleave import Interleaver
+        d = self.d
+        pat = self._wrap(case["pattern"], case.get("pattern_as"))
+        route = case["route"]
+        if route == "fake":
+            f0 = lambda: d["fake"](d["schema"].str.regex(pat))                 # noqa: E731
+            f1 = lambda: d["fake"](d["schema"].str.regex(self.PARTNER))        # noqa: E731
+        else:
+            alphabet = {n: case[n] for n in ("letters", "digits", "word") if case.get(n) is not None} or None
+            rnd = d["Random"]()
+            rg = d["RegexGenerator"](rnd, alphabet=alphabet, max_repeat=case["max_repeat"])
+            if route == "regexgen":
+                f0 = lambda: rg.generate(pat)                                  # noqa: E731
+                f1 = lambda: rg.generate(self.PARTNER)                         # noqa: E731
+            else:
+                gen = d["Generator"](rnd, rg)
+                f0 = lambda: d["schema"].str.regex(pat).__accept__(gen)        # noqa: E731
+                f1 = lambda: d["schema"].str.regex(self.PARTNER).__accept__(gen)   # noqa: E731
+        il = Interleaver(self.world, case["pair"]["switch_seed"])
+        (k0, r0), (k1, r1) = il.run([f0, f1])
+        self.probes["pair:baton_switches"] += il.switches
+        if k1 == "ok" and not (isinstance(r1, str) and re.fullmatch(self.PARTNER, r1)):
+            raise PartnerCorrupted(repr(r1)[:120])
+        if k1 == "raise" and not isinstance(r1, DrawCapExceeded) and not G.has_unsupported(case["ast"]):
+            raise PartnerCorrupted("partner raised %s: %s" % (type(r1).__name__, r1))
+        if k0 == "raise":
+            raise r0
+        return r0
+
     def execute(self, case, schedule, record=True):
         """-> (outcome_class, detail, draws, event_digest)"""
         w = self.world
@@ -130,7 +189,9 @@ class Prop(BaseProp):
         unsup = G.has_unsupported(case["ast"])
         pat = case["pattern"]
         try:
-            s = self._generate(case)
+            s = self._generate_pair(case) if case.get("pair") else self._generate(case)
+        except PartnerCorrupted as e:
+            return "pair:partner_corrupted", str(e), w.draws, None
         except DrawCapExceeded:
             self.probes["skipped:draw_cap"] += 1
             return "ok_skipped_draw_cap", "", w.draws, None
@@ -212,6 +273,13 @@ class Prop(BaseProp):
             return draws
 
         self.schedule_plan(run, case["seed"], case["m"], case["flip_n"])
+        # two callers sharing the generator, interleaved at draw points (2 interleavings per case)
+        solo = case
+        for j in range(case.get("pairs", 2)):
+            case = dict(solo, pair={"switch_seed": derive(solo["seed"], "pair", j)})
+            run(Schedule("rnd" if j else "mix", seed=derive(solo["seed"], "pairsched", j)))
+            self.probes["pair:executions"] += 1
+        case = solo
         self._case_probes(case, fs)
         return {"executions": n_exec[0], "violations": violations, "keys": keys,
                 "digest": fast_digest(digests), "sample": sample}
@@ -281,6 +349,9 @@ class Prop(BaseProp):
         if isinstance(s, str) and "\n" in s:
             fs.append("generated_has_newline")
         sig = {"property": "C09", "outcome": oc, "supported": "unsup" not in fs}
+        if case.get("pair"):
+            sig["interleaved_callers"] = 2
+            fs.append("pair")
         v = self.make_violation("C09", sig, case, schedule, detail, {"features": sorted(fs), "event_digest": event_digest})
         v["kf"] = classify(v, self.args.get("known", []))
         return v
@@ -306,6 +377,8 @@ class Prop(BaseProp):
             yield dict(case, word=None), sched
         if case["max_repeat"] != 32:
             yield dict(case, max_repeat=32), sched
+        if case.get("pattern_as", "plain") != "plain":
+            yield dict(case, pattern_as="plain"), sched
         # 3. pattern surgery
         for ast in G.shrink_candidates(case["ast"]):
             pat = G.render(ast)
